@@ -90,7 +90,7 @@ PLAN = {
         "tar": {"std": (["all"], 2, 20, 110), "shipped": (["all"], 2, 20, 110)},
         "xml": {"std": (["wf+ns+redef"], 2, 150, 110), "default": (["wf+ns+redef"], 2, 150, 110),
                 "shipped": (["wf+ns+redef"], 2, 150, 110), "tests": (["wf+ns+redef"], 1, 60, 110)},
-        "rest": {"std": (["all"], 4, 300, 110), "default": (["all"], 8, 400, 110), "shipped": (["all"], 2, 150, 110),
+        "rest": {"std": (["all"], 4, 300, 110), "default": (["all"], 8, 600, 110), "shipped": (["all"], 2, 150, 110),
                  "tests": (["all"], 1, 60, 110)},
     },
     "thorough": {
